@@ -49,6 +49,9 @@ view == <<blocks, phase, known, orphans, main, ndeliv, strand>>
 Funds == {<<"F1", 0>>, <<"F2", 0>>}
            \cup (IF WithProducers THEN {<<"G1", 0>>, <<"G2", 0>>, <<"G3", 0>>, <<"G4", 0>>} ELSE {})
 
+\* number of outputs of the wide template W1 (output indexes need two bytes in the unspent index)
+WideN == 300
+
 \* inputs as a sequence (a repeated element = the same outpoint twice)
 TxIns(t) == CASE t = "T1" -> << <<"F1", 0>> >>
               [] t = "T2" -> << <<"F1", 0>> >>                 \* conflicts with T1
@@ -58,6 +61,10 @@ TxIns(t) == CASE t = "T1" -> << <<"F1", 0>> >>
               [] t = "T6" -> << <<"F2", 0>> >>
               [] t = "T7" -> << <<"T1", 1>>, <<"F2", 0>> >>    \* conflicts with T6
               [] t = "T9" -> << <<"F1", 0>> >>                 \* F1 again, with another input sequence number
+              [] t = "W1" -> << <<"F2", 0>> >>                 \* a transaction with WideN outputs
+              [] t = "W2" -> << <<"W1", 1>> >>                 \* spends its output 1
+              [] t = "W3" -> << <<"W1", 1>> >>                 \* ... so does this one
+              [] t = "W4" -> << <<"W1", 257>> >>               \* output 257 (257 % 256 = 1)
               [] t = "R1" -> << <<"G1", 0>> >>                 \* producer registrations:
               [] t = "R2" -> << <<"G2", 0>> >>                 \* inputs never collide, the
               [] t = "R3" -> << <<"G3", 0>> >>                 \* unique resources do (Res)
@@ -73,6 +80,9 @@ TxOuts(t) == CASE t = "T1" -> << [addr |-> "A", zero |-> FALSE], [addr |-> "B", 
                [] t = "T6" -> << [addr |-> "A", zero |-> FALSE], [addr |-> "A", zero |-> TRUE] >>
                [] t = "T7" -> << [addr |-> "A", zero |-> FALSE] >>
                [] t = "T9" -> << [addr |-> "A", zero |-> FALSE] >>
+               [] t = "W1" -> [i \in 1..WideN |-> [addr |-> "A", zero |-> FALSE]]
+               [] t \in {"W2", "W4"} -> << [addr |-> "B", zero |-> FALSE] >>
+               [] t = "W3" -> << [addr |-> "A", zero |-> FALSE] >>
                [] t \in {"R1", "R2", "R3", "R4"} ->      \* deposit + change
                     << [addr |-> "D", zero |-> FALSE], [addr |-> "K", zero |-> FALSE] >>
                [] OTHER -> <<>>
